@@ -177,6 +177,10 @@ func c16Items(r *rand.Rand, s *model.Schema, split bool, lateOK bool) []*defItem
 		}
 		items = append(items, it)
 	}
+	if !s.ExplicitSchema && s.Mutation != "" && s.Mutation != "Mutation" {
+		// the mutation root of an implicit schema given by an extension of the schema
+		items = append(items, &defItem{name: "extend-schema", text: "extend schema {\n  mutation: " + s.Mutation + "\n}\n", deps: []string{s.Mutation, s.Query}})
+	}
 	if s.ExplicitSchema {
 		it := &defItem{name: "schema", text: s.SchemaBlockSDL(o)}
 		for _, n := range []string{s.Query, s.Mutation, s.Subscription} {
@@ -394,6 +398,28 @@ func runC16(c *run.Ctx) {
 			ms.Reindex()
 			sameName = true
 		}
+		if i%4 == 1 && !ms.ExplicitSchema && ms.Mutation == "Mutation" {
+			// implicit schema whose mutation root has a custom name and is attached by `extend schema`
+			if mt := ms.Type("Mutation"); mt != nil {
+				mt.Name = "MutZz"
+				ms.Mutation = "MutZz"
+				ms.Reindex()
+				c.Bucket("steering", "extend-implicit-schema")
+			}
+		}
+		illFormed := ""
+		if i%5 == 3 {
+			// an ill-formed set: every arrangement must refuse it (the offending member may sit in an extension of a later load)
+			muts := gen.SchemaMutations()
+			mu := muts[r.Intn(len(muts))]
+			if _, okm := mu.Apply(r, ms); okm {
+				ms.Reindex()
+				if len(ref.CheckSchema(ms)) > 0 {
+					illFormed = mu.Rule
+					c.Bucket("steering", "ill-formed:"+mu.Rule)
+				}
+			}
+		}
 		key := ms.SDL(model.SDLOpts{})
 		c.Eval(key, len(ms.Types)+len(ms.Dirs) >= 6)
 		var first *c16Outcome
@@ -429,7 +455,7 @@ func runC16(c *run.Ctx) {
 			if diag == "" {
 				continue
 			}
-			c.Violation("c16", map[string]interface{}{"diag": diag, "same_name_type_and_directive": sameName, "arrangement_a": firstArr.how, "arrangement_b": arr.how,
+			c.Violation("c16", map[string]interface{}{"diag": diag, "same_name_type_and_directive": sameName, "ill_formed_rule": illFormed, "arrangement_a": firstArr.how, "arrangement_b": arr.how,
 				"loads_a": firstArr.loads, "loads_b": arr.loads})
 			break
 		}
